@@ -18,7 +18,7 @@ def birthday(ctx, rep):
                  'the 1024 month intervals [E+kS, E+(k+1)S-1] the encoder returns exactly k on the whole interval and the decoder maps k to exactly '
                  'E+kS (hence B <= t < B+S for every t in range); [0, E-1] and {2^64-1} encode to 0; for every t from the end of the range to 2^64-2 the '
                  'encoder returns some k in 0..1023 and E+1023*S <= t (never later than t); the decoder is computed in 64 bits')
-        rep.instances(len(encs), 1, 'copies of birthday_encode'); rep.instances(len(decs), 1, 'copies of birthday_decode')
+        rep.instances(len(encs), 1, 'copies of birthday_encode')
         for f in encs:
             w = '%s:%s' % ((f.file or '').replace('/repo/', ''), f.line)
             II = IntervalInterp(P)
@@ -43,25 +43,19 @@ def birthday(ctx, rep):
             rep.check(0 <= r[0] and r[1] <= MONTHS - 1, 'after the range the encoder still returns a month index 0..1023 (so the birthday is never later than t)', w,
                       '%s after range' % base_name(f.name), detail=list(r), key='BDAY-RANGE|after-range')
             rep.check(f.params[0]['bits'] == 64 and f.d['ret_bits'] >= 10, 'encoder takes a 64-bit clock', w, f.name)
-        for g in decs:
-            w = '%s:%s' % ((g.file or '').replace('/repo/', ''), g.line)
-            II = IntervalInterp(P)
-            bad = [k for k in range(MONTHS) if II.run(g, [(k, k)])[0] != (EPOCH + k * STEP,) * 2]
-            rep.check(not bad, 'decode(k) = E + k*S for k = 0..1023', w, base_name(g.name), detail=[(k, II.run(g, [(k, k)])[0]) for k in bad[:3]],
-                      sample={'k': 1023, 'decoded': EPOCH + 1023 * STEP}, key='BDAY-RANGE|decode')
-            rep.check(g.d['ret_bits'] == 64, 'decoder returns a 64-bit time', w, g.name, detail=g.d['ret_bits'], key='BDAY-RANGE|width')
+        # the decoder is checked through the public getter (whatever helpers it uses): polyseed_get_birthday(seed with birthday = k) = E + k*S
+        fo = {n: o for o, (n, sz) in P.field_table(DATA_STRUCT).items()}
+        G = P.fn('polyseed_get_birthday')
+        w = '%s:%s' % ((G.file or '').replace('/repo/', ''), G.line)
+        bad = []
+        for k in range(MONTHS):
+            II = IntervalInterp(P, fields={(0, fo['birthday']): (k, k)})
+            r, _ = II.run(G, [('ptr', 0, 0)])
+            if r != (EPOCH + k * STEP,) * 2: bad.append((k, r))
+        rep.check(not bad, 'polyseed_get_birthday(seed with month index k) = E + k*S for k = 0..1023', w, base_name(G.name), detail=bad[:3],
+                  sample={'k': 1023, 'decoded': EPOCH + 1023 * STEP}, key='BDAY-RANGE|decode')
+        rep.check(G.d['ret_bits'] == 64, 'the birthday is returned as a 64-bit time', w, G.name, detail=G.d['ret_bits'], key='BDAY-RANGE|width')
+        II = IntervalInterp(P, fields={(0, fo['birthday']): (0, MONTHS - 1), (0, fo['features']): (0, 31)})
+        r, _ = II.run(G, [('ptr', 0, 0)])
+        rep.check(r[0] >= EPOCH and r[1] <= EPOCH + (MONTHS - 1) * STEP, 'the getter reads nothing but the birthday field and stays within the range', w, base_name(G.name), detail=list(r))
 
-        rep.rule('BDAY-API', 'polyseed_get_birthday returns birthday_decode(seed->birthday) of the field, reading nothing else')
-        f = P.fn('polyseed_get_birthday')
-        rets = [i for i in f.all_insts() if i.op == 'ret']
-        ok = False
-        if len(rets) == 1 and rets[0].ops and rets[0].ops[0]['k'] == 'i':
-            c = f.insts[rets[0].ops[0]['id']]
-            if c.op == 'call' and P.call_target(c)[0] == 'direct' and base_name(P.call_target(c)[1]) == 'birthday_decode':
-                a = inst_of(f, c.ops[0])
-                while a is not None and a.op in ('zext', 'trunc'): a = inst_of(f, a.ops[0])
-                if a is not None and a.op == 'load':
-                    base, off = addr_base(f, a.ops[0])
-                    fo = {n: o for o, (n, s) in P.field_table(DATA_STRUCT).items()}
-                    ok = base == ('a', 0) and off == fo['birthday']
-        rep.check(ok, 'polyseed_get_birthday = birthday_decode(seed->birthday)', '%s:%s' % ((f.file or '').replace('/repo/', ''), f.line), f.name, key='BDAY-API|getter')
